@@ -11,3 +11,7 @@ def run(c):
     ct = A.conv_table_for([p for w in A.WRAPPERS_QUICK for p in w])
     A.obl_quote_pair(c, ct, thorough=(c.tier == "thorough"), budget_s=1500)
     A.obl_fixed_assembly(c, thorough=(c.tier == "thorough"), budget_s=1200, mode="quote_pair")
+    # "same length, order and preselection": also after a choice was learned for a quoted word
+    c.only_clauses = {"learned_choice_is_preselected_next_time"}
+    A.obl_learn(c, ct, thorough=(c.tier == "thorough"), budget_s=900, quoted_only=True)
+    c.only_clauses = clauses.OWN["C17"]
